@@ -50,12 +50,13 @@ def axis_step(ops, d, s, memo):
     bc_hit = ops.and_(n_bc, ops.eq(s, one))
     no_label = ops.and_(n_tp, ops.not_(ops.has_label()))
     bound = ops.has(memo, key)
+    # (a '?' axis outside a structured PyTree is an AnnotationError whatever the size -- C16's statement; the '#' + size-one shortcut comes second)
     named_v = ops.ite(
-        bc_hit,
-        ops.int(ACCEPT),
+        no_label,
+        ops.int(ANNOT),
         ops.ite(
-            no_label,
-            ops.int(ANNOT),
+            bc_hit,
+            ops.int(ACCEPT),
             ops.ite(bound, ops.ite(ops.eq(ops.get(memo, key), s), ops.int(ACCEPT), ops.int(REJECT)), ops.int(ACCEPT)),
         ),
     )
